@@ -382,25 +382,31 @@ func main() {
 	}
 	var sweeps []sweep
 	if r.Thorough() {
-		pairs := [][2]int{{0, 1}, {0, 2}, {0, 3}, {1, 3}}
+		nilT, nilJ := [][]string{nil, {T}}, [][]string{nil, {J}}
+		noMedia := mediaBase{sh1: 3, sh2: 1}
 		sweeps = []sweep{
-			{"pairs-of-categories", mediaSweep(sub2, sub2, sub2, sub2, []int{0}, nil, nil, nil, []secCfg{noSec, k1Sec}), 2},
-			{"security", securitySweep(append(bases, mediaBase{sh1: 3, sh2: 1})), 2},
-			{"media-2types-full", mediaSweep(sub2, sub2, sub2, sub2, []int{0, 1, 2, 3, 4}, pairs, sub2, sub2, []secCfg{noSec}), 1},
-			{"media-2types-secured", mediaSweep(sub2, sub2, sub2, sub2, []int{0, 1}, [][2]int{{0, 1}}, [][]string{nil, {T}}, [][]string{nil, {J}}, []secCfg{k1Sec}), 1},
-			{"consumes-3types", mediaSweep(sub3, append(onlyJ, nil), sub3, none, []int{0, 1, 2, 3}, [][2]int{{0, 1}, {0, 2}}, sub3, none, []secCfg{noSec}), 1},
-			{"produces-3types", mediaSweep(append(onlyJ, nil), sub3, none, sub3, []int{0, 1, 2, 3}, [][2]int{{0, 1}, {0, 2}}, none, sub3, []secCfg{noSec}), 1},
-			{"paths", pathSweep(), 1},
 			{"odd-media-types", oddSweep(), 1},
+			{"paths", pathSweep(), 1},
+			{"pairs-of-categories", mediaSweep(sub2, sub2, sub2, sub2, []int{0}, nil, nil, nil, []secCfg{noSec, k1Sec}), 2},
+			{"security-pairs-of-categories", securitySweep(bases[:1]), 2},
+			{"security", securitySweep([]mediaBase{bases[1], noMedia}), 1},
+			{"media-2types-one-operation", mediaSweep(sub2, sub2, sub2, sub2, []int{0, 1, 2, 3, 4}, nil, nil, nil, []secCfg{noSec}), 1},
+			{"media-2types-two-operations-full", mediaSweep(sub2, sub2, sub2, sub2, nil, [][2]int{{0, 1}}, sub2, sub2, []secCfg{noSec}), 1},
+			{"media-2types-two-operations", mediaSweep(sub2, sub2, sub2, sub2, nil, [][2]int{{0, 3}, {1, 3}, {0, 2}}, nilT, nilJ, []secCfg{noSec}), 1},
+			{"media-2types-secured", mediaSweep(sub2, sub2, sub2, sub2, []int{0, 1}, [][2]int{{0, 1}}, nilT, nilJ, []secCfg{k1Sec}), 1},
+			{"consumes-3types", mediaSweep(sub3, append(onlyJ, nil), sub3, none, []int{0, 1, 2, 3}, [][2]int{{0, 1}}, sub3, none, []secCfg{noSec}), 1},
+			{"produces-3types", mediaSweep(append(onlyJ, nil), sub3, none, sub3, []int{0, 1, 2, 3}, [][2]int{{0, 1}}, none, sub3, []secCfg{noSec}), 1},
 		}
 	} else {
+		nilT, nilJ := [][]string{nil, {T}}, [][]string{nil, {J}}
 		sweeps = []sweep{
-			{"media-2types", mediaSweep(sub2, sub2, sub2, sub2, []int{0, 1, 3}, [][2]int{{0, 1}}, [][]string{nil, {T}}, [][]string{nil, {J}}, []secCfg{noSec}), 1},
+			{"odd-media-types", oddSweep(), 1},
+			{"paths", pathSweep(), 1},
+			{"security", securitySweep(bases[:1]), 1},
 			{"consumes-3types", mediaSweep(sub3, onlyJ, sub3, none, []int{0}, nil, nil, nil, []secCfg{noSec}), 1},
 			{"produces-3types", mediaSweep(onlyJ, sub3, none, sub3, []int{1}, nil, nil, nil, []secCfg{noSec}), 1},
-			{"security", securitySweep(bases[:1]), 1},
-			{"paths", pathSweep(), 1},
-			{"odd-media-types", oddSweep(), 1},
+			{"media-2types-one-operation", mediaSweep(sub2, sub2, sub2, sub2, []int{0, 1, 3}, nil, nil, nil, []secCfg{noSec}), 1},
+			{"media-2types-two-operations", mediaSweep(sub2, sub2, sub2, nilT, nil, [][2]int{{0, 1}}, nilT, nilJ, []secCfg{noSec}), 1},
 		}
 	}
 	r.Set("media_types", M3)
@@ -408,7 +414,7 @@ func main() {
 	r.Set("operation_shapes", fmt.Sprint(shapes))
 	var st stats
 	// own wall-clock budget (stops exploring, never an alarm): the run is then reported exhaustive:false
-	limit := 45 * time.Second
+	limit := 50 * time.Second
 	if r.Thorough() {
 		limit = 8 * time.Minute
 	}
@@ -444,7 +450,7 @@ func main() {
 		enum.Parallel(len(sw.specs), stop, func(i int) {
 			// rotate by the seed: the set is the same, the visiting order and the samples differ
 			j := (i + int(r.Seed%int64(len(sw.specs))+int64(len(sw.specs)))) % len(sw.specs)
-			explore(r, &st, sw.specs[j], sw.level, j%211 == int(r.Seed%211))
+			explore(r, &st, sw.specs[j], sw.level, j%211 == int((r.Seed%211+211)%211))
 		})
 		r.Set("sweep_"+sw.name, map[string]any{"descriptions": len(sw.specs), "registration_sets": st.regs.Load() - before, "registration_level": sw.level})
 	}
